@@ -31,6 +31,7 @@ func runC18(w *World, r *Report) {
 	c18Filter(w, r, "C18/FILTER")
 	c18Sorted(w, r)
 	c18ExactFirst(w, r)
+	c18ToleratedLast(w, r)
 	c18Resolve(w, r)
 }
 
@@ -248,6 +249,51 @@ func c18Sorted(w *World, r *Report) {
 		rb := usesIdx(c.Common().Args[1], less.Params[2]) && !usesIdx(c.Common().Args[1], less.Params[1])
 		okLess = ra && rb
 	}
+	// every result of Less is that comparison, or the constant chosen on the parse-error edge of one of the versions
+	lg := FullGraph(less)
+	var parseBad []Edge
+	for _, c := range callInstrs(less) {
+		if f, _ := calleeOf(c.Common()); f != nil && strings.HasSuffix(FuncName(f), "semver/v3.NewVersion") {
+			_, bad := nilTestEdges(errResult(c))
+			parseBad = append(parseBad, bad...)
+		}
+	}
+	pure, impure := true, ""
+	var judge func(v ssa.Value, at IPos, d int)
+	judge = func(v ssa.Value, at IPos, d int) {
+		switch x := v.(type) {
+		case *ssa.Const:
+			if ex, _ := lg.PathExists(entryPos(less), at, Avoid{}.withEdges(parseBad...)); ex {
+				pure, impure = false, "a constant result is returned although both versions parsed"
+			}
+		case *ssa.Call:
+			if f, _ := calleeOf(x.Common()); f == nil || !strings.HasSuffix(FuncName(f), "semver/v3.Version).LessThan") {
+				pure, impure = false, "the result of "+describeCall(x.Common())+" decides the order"
+			}
+		case *ssa.Phi:
+			if d > 3 {
+				pure, impure = false, "result too indirect"
+				return
+			}
+			for i, e := range x.Edges {
+				p := x.Block().Preds[i]
+				if len(p.Instrs) > 0 {
+					judge(e, IPos{p, len(p.Instrs) - 1}, d+1)
+				}
+			}
+		default:
+			pure, impure = false, "something other than the version comparison decides the order"
+		}
+	}
+	for _, b := range less.Blocks {
+		if len(b.Instrs) == 0 {
+			continue
+		}
+		if ret, ok := b.Instrs[len(b.Instrs)-1].(*ssa.Return); ok && lg.Reachable()[b] {
+			judge(ret.Results[0], posOf(ret), 0)
+		}
+	}
+	r.Check(pure, "C18/SORTED", "Less/only-version-order", w.Pos(less.Pos()), "every result of Less is version(a) < version(b), or the constant chosen where a version does not parse", "Less does not order by semantic-version precedence alone: "+impure)
 	r.Check(okLess, "C18/SORTED", "Less/operands", w.Pos(less.Pos()), "Less(a, b) is version(a).LessThan(version(b))", "Less(a, b) is not version(a) < version(b): the sort direction or key is wrong")
 }
 
@@ -381,6 +427,62 @@ func c18ExactFirst(w *World, r *Report) {
 			}
 		}
 		r.Check(!back, "C18/EXACT-FIRST", e[1]+"/two-phase", w.InstrPos(eqs[0]), "no constraint is evaluated before the identical-string scan is complete", "a constraint can be evaluated while the identical-string scan is still going on: a higher version that merely satisfies the string as a constraint wins over the identical entry")
+		// every element handed out passed the identity test or the constraint check
+		var guards []Edge
+		for _, q := range eqs {
+			qv, _ := q.(ssa.Value)
+			if qv == nil {
+				continue
+			}
+			if c, isCall := q.(*ssa.Call); isCall {
+				if cf, _ := calleeOf(c.Common()); cf != nil && fnPkgPath(cf) == "slices" && strings.HasPrefix(genericName(cf), "Index") {
+					for _, e := range relEdges(fn, func(v ssa.Value) bool { return v == qv }, func(v ssa.Value) bool { _, k := constInt(v); return k }) {
+						k, _ := constInt(e.B)
+						if (e.Rel == token.GEQ && k == 0) || (e.Rel == token.GTR && k == -1) || (e.Rel == token.NEQ && k == -1) {
+							guards = append(guards, e.Edge)
+						}
+					}
+					continue
+				}
+			}
+			for _, e := range condEdges(qv) {
+				if e.truth {
+					guards = append(guards, e.Edge)
+				}
+			}
+		}
+		for _, c := range checks {
+			cv, _ := c.(ssa.Value)
+			if cv == nil {
+				continue
+			}
+			if cc, isCall := c.(*ssa.Call); isCall {
+				if cf, _ := calleeOf(cc.Common()); cf != nil && fnPkgPath(cf) == "slices" && strings.HasPrefix(genericName(cf), "Index") {
+					for _, e := range relEdges(fn, func(v ssa.Value) bool { return v == cv }, func(v ssa.Value) bool { _, k := constInt(v); return k }) {
+						k, _ := constInt(e.B)
+						if (e.Rel == token.GEQ && k == 0) || (e.Rel == token.GTR && k == -1) || (e.Rel == token.NEQ && k == -1) {
+							guards = append(guards, e.Edge)
+						}
+					}
+					continue
+				}
+			}
+			for _, e := range condEdges(cv) {
+				if e.truth {
+					guards = append(guards, e.Edge)
+				}
+			}
+		}
+		okRet, badRet := true, ""
+		for _, rp := range g.classifyReturns() {
+			if rp.Class != RetSuccess {
+				continue
+			}
+			if ex, _ := g.PathExists(entryPos(fn), retPos(rp), Avoid{}.withEdges(guards...)); ex {
+				okRet, badRet = false, w.InstrPos(rp.Ret)
+			}
+		}
+		r.Check(okRet && len(guards) > 0, "C18/EXACT-FIRST", e[1]+"/result-passed-a-test", w.Pos(fn.Pos()), "an element is returned only where it equalled the requested string or satisfied the constraint", "the success return at "+badRet+" hands out an element that passed neither the identity test nor the constraint check")
 		// both scans from index 0 upward, first hit returns
 		okUp := true
 		for _, b := range fn.Blocks {
@@ -543,4 +645,205 @@ func loopNextOf(fn *ssa.Function) []ssa.Instruction {
 		}
 	}
 	return out
+}
+
+// c18ToleratedLast: loadIndex tolerates one class of validation error (duplicate dependency names, which
+// some repository software produces). Metadata.Validate reports only the first error it meets, so the
+// tolerated error must be reported last: where it is returned, no other validation test may still be
+// ahead (otherwise an entry that is invalid in another way stays in the index).
+func c18ToleratedLast(w *World, r *Report) {
+	r.Rule("C18/TOLERATED-LAST", "Metadata.Validate returns the one validation error that the index loader tolerates only after every other validation has run: from the decision to return it, no other validation failure can still be reached (except by having completed the loop the decision sits behind)", 1)
+	ign := w.Fn("pkg/repo", "ignoreSkippableChartValidationError")
+	val := w.Fn("pkg/chart/v2", "Metadata.Validate")
+	if ign == nil || val == nil {
+		r.Unk("C18/TOLERATED-LAST", "anchor", "-", "ignoreSkippableChartValidationError / Metadata.Validate not found")
+		return
+	}
+	// the tolerated message prefixes
+	var prefixes []string
+	for _, c := range callInstrs(ign) {
+		if f, _ := calleeOf(c.Common()); f != nil && fnPkgPath(f) == "strings" && f.Name() == "HasPrefix" {
+			if s, ok := constString(c.Common().Args[1]); ok {
+				prefixes = append(prefixes, strings.TrimPrefix(s, "validation: "))
+			}
+		}
+	}
+	if len(prefixes) == 0 {
+		r.OKTrivial("C18/TOLERATED-LAST", "none", w.Pos(ign.Pos()), "the index loader tolerates no validation error")
+		return
+	}
+	r.Fn(FuncName(val))
+	g := FullGraph(val)
+	isTolerated := func(v ssa.Value) bool {
+		found := false
+		backSlice(v, func(x ssa.Value) bool {
+			if c, ok := x.(*ssa.Call); ok {
+				for _, a := range c.Call.Args {
+					if s, ok := constString(a); ok {
+						for _, p := range prefixes {
+							if strings.HasPrefix(s, p) {
+								found = true
+							}
+						}
+					}
+				}
+			}
+			return found
+		})
+		return found
+	}
+	// strongly connected components of the CFG (loops)
+	scc := sccOf(val)
+	decideOf := func(retBlock *ssa.BasicBlock) *ssa.BasicBlock {
+		cur := retBlock
+		for d := 0; d < 6; d++ {
+			if len(cur.Preds) != 1 {
+				return nil
+			}
+			p := cur.Preds[0]
+			if _, isIf := p.Instrs[len(p.Instrs)-1].(*ssa.If); isIf {
+				return p
+			}
+			cur = p
+		}
+		return nil
+	}
+	rets := g.classifyReturns()
+	n := 0
+	seenRet := map[*ssa.Return]bool{}
+	for _, rs := range rets {
+		if rs.Class != RetError || !isTolerated(rs.Val) || seenRet[rs.Ret] {
+			continue
+		}
+		seenRet[rs.Ret] = true
+		n++
+		rsb := rs.Ret.Block()
+		bad := ""
+		for _, rp := range rets {
+			if rp.Class != RetError || isTolerated(rp.Val) || rp.Ret == rs.Ret {
+				continue
+			}
+			t := decideOf(rp.Ret.Block())
+			if t == nil {
+				t = rp.Ret.Block()
+			}
+			if comp := scc[t]; len(comp) > 1 {
+				// (a return block is on no cycle itself: look at the blocks that lead into it)
+				// leaving through the loop header's exit edge means every iteration was completed
+				inComp := func(b *ssa.BasicBlock) bool {
+					for _, x := range comp {
+						if x == b {
+							return true
+						}
+					}
+					return false
+				}
+				isHeader := func(b *ssa.BasicBlock) bool {
+					for _, p := range b.Preds {
+						if !inComp(p) {
+							return true
+						}
+					}
+					return false
+				}
+				inSame := inComp(rsb)
+				for _, p := range rsb.Preds {
+					if inComp(p) && !isHeader(p) {
+						inSame = true
+					}
+				}
+				if d := decideOf(rsb); d != nil && inComp(d) && !isHeader(d) {
+					inSame = true
+				}
+				if inSame {
+					bad = "it is returned from inside the loop that also validates the other elements (" + w.InstrPos(rp.Ret) + "): later elements are never looked at"
+					continue
+				}
+				// the loop must have been entered (and so completed) before: its header dominates the return
+				okHdr := false
+				for _, x := range comp {
+					for _, p := range x.Preds {
+						outside := true
+						for _, y := range comp {
+							if y == p {
+								outside = false
+							}
+						}
+						if outside && x.Dominates(rsb) {
+							okHdr = true
+						}
+					}
+				}
+				if !okHdr {
+					bad = "the validation at " + w.InstrPos(rp.Ret) + " has not run yet"
+				}
+				continue
+			}
+			if !t.Dominates(rsb) {
+				bad = "the validation at " + w.InstrPos(rp.Ret) + " has not run yet"
+			}
+		}
+		r.Check(bad == "", "C18/TOLERATED-LAST", "Validate/return#"+fmt.Sprint(n), w.InstrPos(rs.Ret), "every other validation has run where the tolerated error is returned", "the tolerated error can be returned before the rest was validated: "+bad+" — an entry that is invalid in that way is kept by the index loader")
+	}
+	if n == 0 {
+		r.Unk("C18/TOLERATED-LAST", "no-site", w.Pos(val.Pos()), "Metadata.Validate never returns the error the index loader tolerates")
+	}
+}
+
+// sccOf: block -> members of its strongly connected component (Tarjan).
+func sccOf(fn *ssa.Function) map[*ssa.BasicBlock][]*ssa.BasicBlock {
+	index := map[*ssa.BasicBlock]int{}
+	low := map[*ssa.BasicBlock]int{}
+	on := map[*ssa.BasicBlock]bool{}
+	var stack []*ssa.BasicBlock
+	out := map[*ssa.BasicBlock][]*ssa.BasicBlock{}
+	next := 0
+	var visit func(b *ssa.BasicBlock)
+	visit = func(b *ssa.BasicBlock) {
+		index[b], low[b] = next, next
+		next++
+		stack = append(stack, b)
+		on[b] = true
+		for _, s := range b.Succs {
+			if _, seen := index[s]; !seen {
+				visit(s)
+				if low[s] < low[b] {
+					low[b] = low[s]
+				}
+			} else if on[s] && index[s] < low[b] {
+				low[b] = index[s]
+			}
+		}
+		if low[b] == index[b] {
+			var comp []*ssa.BasicBlock
+			for {
+				x := stack[len(stack)-1]
+				stack = stack[:len(stack)-1]
+				on[x] = false
+				comp = append(comp, x)
+				if x == b {
+					break
+				}
+			}
+			for _, x := range comp {
+				out[x] = comp
+			}
+		}
+	}
+	for _, b := range fn.Blocks {
+		if _, seen := index[b]; !seen {
+			visit(b)
+		}
+	}
+	return out
+}
+
+func isErrorLike(t types.Type) bool {
+	if isErrorType(t) {
+		return true
+	}
+	if n, ok := t.(*types.Named); ok && n.Obj().Name() == "ValidationError" {
+		return true
+	}
+	return false
 }
